@@ -3,3 +3,4 @@
 #![allow(unused_imports, dead_code)]
 pub mod c13;
 pub mod c16;
+#[cfg(kani)] pub mod fold_probe;
